@@ -23,6 +23,7 @@ func runC11(p *Prog, r *Report) {
 	c11R4(p, r, sites)
 	c11R5(p, r, sites)
 	c11R6(p, r)
+	c11R7(p, r)
 }
 
 // mutableMethods: for every named type of the loaded module packages, does a pointer-receiver
@@ -1038,4 +1039,215 @@ func addrChangeBlocks(p *Prog, r *Report, rule string, freshRecord, rederive boo
 		}
 	})
 	return nBlocks
+}
+
+// c11R7: the receive loop's control-message buffers never leave the loop. Each listener loop reads
+// ancillary data (the client's pktinfo: which local address/interface the datagram arrived on) into
+// a buffer it reuses for the next datagram. What is remembered for a session and published to the
+// session's downlink goroutine must be a private copy; a slice of the receive buffer would be
+// overwritten by the next datagram of ANY client while the downlink is reading it, and replies
+// would leave from the wrong local address or carry a torn control message.
+func c11R7(p *Prog, r *Report) {
+	const rule = "C11-R7"
+	r.Rule(rule, "receive buffers for ancillary data are not retained: a byte slice handed as the out-of-band buffer to ReadMsgUDPAddrPort, or whose data pointer is stored into a Msghdr.Control field (recvmmsg), and every slice of it (through locals and the vector that holds the per-message buffers), is only compared, copied from, parsed or measured — it is never stored into a struct field, put into a composite literal, passed to an atomic Store, sent on a channel or have its address taken")
+	pkg := p.Pkg("service")
+	nBuf, nUse := 0, 0
+	p.AllFuncs(pkg, func(top *FuncCtx) {
+		ctxs := allCtxs(p, top)
+		info := top.Info()
+		taint := map[types.Object]bool{}
+		// seeds
+		for _, fc := range ctxs {
+			for _, cs := range fc.AllCalls() {
+				if cs.Fn != nil && cs.Fn.Name() == "ReadMsgUDPAddrPort" && len(cs.Call.Args) == 2 {
+					if root, _, ok := bufRoot(info, cs.Call.Args[1]); ok {
+						taint[root] = true
+					}
+				}
+				if cs.Fn != nil && cs.Fn.Name() == "SliceData" && cs.Fn.Pkg() != nil && cs.Fn.Pkg().Path() == "unsafe" {
+					// only when the result lands in a Control field
+					v := fc.G.V[cs.V]
+					if as, ok := v.Node.(*ast.AssignStmt); ok && len(as.Lhs) == 1 {
+						if sel, isSel := ast.Unparen(as.Lhs[0]).(*ast.SelectorExpr); isSel && sel.Sel.Name == "Control" {
+							if root, _, ok := bufRoot(info, cs.Call.Args[0]); ok {
+								taint[root] = true
+							}
+						}
+					}
+				}
+			}
+		}
+		// unsafe.SliceData is a builtin-like function without a *types.Func: scan by syntax too
+		for _, fc := range ctxs {
+			for _, v := range fc.G.V {
+				as, ok := v.Node.(*ast.AssignStmt)
+				if !ok || len(as.Lhs) != 1 || len(as.Rhs) != 1 {
+					continue
+				}
+				sel, isSel := ast.Unparen(as.Lhs[0]).(*ast.SelectorExpr)
+				if !isSel || sel.Sel.Name != "Control" {
+					continue
+				}
+				if c, isC := ast.Unparen(as.Rhs[0]).(*ast.CallExpr); isC && len(c.Args) == 1 && strings.HasSuffix(exprStr(c.Fun), "SliceData") {
+					if root, _, ok := bufRoot(info, c.Args[0]); ok {
+						taint[root] = true
+					}
+				}
+			}
+		}
+		if len(taint) == 0 {
+			return
+		}
+		// propagate: x := tainted[...]  /  vec[i] = tainted  (vec becomes a tainted container)
+		isTainted := func(e ast.Expr) bool {
+			root, _, ok := bufRoot(info, e)
+			return ok && taint[root]
+		}
+		for changed := true; changed; {
+			changed = false
+			for _, fc := range ctxs {
+				for _, v := range fc.G.V {
+					switch st := v.Node.(type) {
+					case *ast.AssignStmt:
+						if v.Kind != VStmt || len(st.Lhs) != len(st.Rhs) {
+							continue
+						}
+						for i, l := range st.Lhs {
+							if !isTainted(st.Rhs[i]) {
+								continue
+							}
+							switch lx := ast.Unparen(l).(type) {
+							case *ast.Ident:
+								if o := objOf(info, lx); o != nil && !taint[o] {
+									taint[o] = true
+									changed = true
+								}
+							case *ast.IndexExpr:
+								if o := objOf(info, lx.X); o != nil && !taint[o] {
+									if vv, isVar := o.(*types.Var); isVar && !vv.IsField() && vv.Parent() != vv.Pkg().Scope() {
+										taint[o] = true
+										changed = true
+									}
+								}
+							}
+						}
+					case *ast.ValueSpec:
+						for i, id := range st.Names {
+							if i < len(st.Values) && isTainted(st.Values[i]) {
+								if o := info.Defs[id]; o != nil && !taint[o] {
+									taint[o] = true
+									changed = true
+								}
+							}
+						}
+					}
+				}
+			}
+		}
+		nBuf += len(taint)
+		// sinks
+		for _, fc := range ctxs {
+			report := func(pos token.Pos, e ast.Expr, how string) {
+				nUse++
+				r.Fail(rule, fmt.Sprintf("%s:receive-buffer-retained:%s", top.Name, how), p.posStr(pos), "the control-message receive buffer (or a slice of it) "+exprStr(e)+" is "+how+": the next datagram read by this loop overwrites it while the session's other goroutine still uses it, so replies leave with another client's local address / interface or a torn control message")
+			}
+			for _, v := range fc.G.V {
+				for _, nd := range vertexNodes(v) {
+					if nd == nil {
+						continue
+					}
+					inspectNoLit(nd, func(x ast.Node) bool {
+						switch y := x.(type) {
+						case *ast.CompositeLit:
+							for _, el := range y.Elts {
+								val := el
+								if kv, isKV := el.(*ast.KeyValueExpr); isKV {
+									val = kv.Value
+								}
+								if isTainted(val) {
+									report(val.Pos(), val, "put into a composite literal")
+								}
+							}
+						case *ast.UnaryExpr:
+							if y.Op == token.AND && isTainted(y.X) {
+								if _, isIdx := ast.Unparen(y.X).(*ast.IndexExpr); !isIdx {
+									report(y.Pos(), y.X, "has its address taken")
+								}
+							}
+						case *ast.SendStmt:
+							if isTainted(y.Value) {
+								report(y.Pos(), y.Value, "sent on a channel")
+							}
+						case *ast.CallExpr:
+							if sel, isSel := ast.Unparen(y.Fun).(*ast.SelectorExpr); isSel && (sel.Sel.Name == "Store" || sel.Sel.Name == "Swap" || sel.Sel.Name == "CompareAndSwap") {
+								for _, a := range y.Args {
+									if isTainted(a) {
+										report(a.Pos(), a, "passed to an atomic store")
+									}
+								}
+							}
+						case *ast.AssignStmt:
+							for i, l := range y.Lhs {
+								if i >= len(y.Rhs) || !isTainted(y.Rhs[i]) {
+									continue
+								}
+								if sel, isSel := ast.Unparen(l).(*ast.SelectorExpr); isSel {
+									if s := info.Selections[sel]; s != nil && s.Kind() == types.FieldVal {
+										report(y.Pos(), y.Rhs[i], "stored into field "+exprStr(l))
+									}
+								}
+							}
+						}
+						return true
+					})
+				}
+			}
+			// uses counted for the floor: every mention of a tainted variable
+			for _, v := range fc.G.V {
+				for _, nd := range vertexNodes(v) {
+					if nd == nil {
+						continue
+					}
+					inspectNoLit(nd, func(x ast.Node) bool {
+						if id, ok := x.(*ast.Ident); ok {
+							if o := info.Uses[id]; o != nil && taint[o] {
+								r.OK(rule, fmt.Sprintf("%s:receive-buffer-use:%s", top.Name, roleOf(fc, id)), p.posStr(id.Pos()), "the receive buffer is only read here")
+							}
+						}
+						return true
+					})
+				}
+			}
+		}
+	})
+	r.Count("receive_buffer_variables", nBuf)
+	r.Check(nBuf >= 5, rule, "service:control-message-buffers-found", "", "the control-message buffers of the listener loops were found", fmt.Sprintf("only %d control-message receive buffer variables found in package service (expected the five relays' buffers)", nBuf))
+	r.Floor(rule, 10)
+}
+
+// bufRoot returns the variable at the root of an expression built from an identifier by slicing
+// and indexing only (x, x[a:b], x[i], x[i][a:b], …).
+func bufRoot(info *types.Info, e ast.Expr) (types.Object, int, bool) {
+	depth := 0
+	for {
+		switch x := ast.Unparen(e).(type) {
+		case *ast.SliceExpr:
+			e = x.X
+			depth++
+			continue
+		case *ast.IndexExpr:
+			e = x.X
+			depth++
+			continue
+		case *ast.Ident:
+			o := objOf(info, x)
+			if v, ok := o.(*types.Var); ok && !v.IsField() {
+				if _, isSl := v.Type().Underlying().(*types.Slice); isSl {
+					return o, depth, true
+				}
+			}
+			return nil, 0, false
+		}
+		return nil, 0, false
+	}
 }
